@@ -9,6 +9,7 @@ From Coq Require Import List NArith Bool Arith.
 From SioV Require Import Base.Conc.
 From SioV Require Eio.PollQueue Eio.PollQueueProofs Sio.PacketQueue Sio.PacketQueueProofs.
 From SioV Require Eio.PollQueueSwap Eio.PollQueueSwapProofs.
+From SioV Require Sio.Pipeline Sio.PipelineConn Sio.PacketQueuePark Sio.PacketQueueParkProofs.
 Import ListNotations.
 
 Module P := Eio.PollQueue.
@@ -17,6 +18,9 @@ Module Q := Sio.PacketQueue.
 Module QP := Sio.PacketQueueProofs.
 Module W := Eio.PollQueueSwap.
 Module WP := Eio.PollQueueSwapProofs.
+Module C := Sio.PipelineConn.
+Module K := Sio.PacketQueuePark.
+Module KP := Sio.PacketQueueParkProofs.
 
 (** * packetQueue (sender goroutine of a Socket.IO connection) *)
 
@@ -194,6 +198,52 @@ Theorem C19_swap_locked_send_blocks_upgrade :
   exec_opt (W.wstep true) WP.stranding_schedule W.winit = None /\
   exists s, exec_opt (W.wstep true) [W.WAcquire 0 7%N] W.winit = Some s /\ W.wstep true W.UAcquire s = None.
 Proof. exact WP.locked_send_blocks_that_schedule. Qed.
+
+(** * In front of the packet queue: the client socket's park / flush stage (CONNECT pending) *)
+
+(** Over b-C02's model of the stage (Sio/PipelineConn.v, [cstep_fix] = the code as it is), with the
+    flush of onConnect restricted to the single call the code makes ([K.kstep], [K.KFlush]); for
+    ALL schedules of any number of emitters, the CONNECT reply, its flush and everything downstream:
+    a packet sits in sendBuffer of a CONNECTED socket only while that flush is still to come, and the
+    flush is enabled and hands every parked packet, in order, to the packet queue in one step. *)
+Theorem C19_park_flush_pending :
+  forall (data : Type) declared max_atts split tr (progs : list (list (Sio.Pipeline.spacket data))) k,
+  K.kreachable (K.cfix declared max_atts split tr) progs k ->
+  C.c_connected (K.k_c k) = true -> C.c_parked (K.k_c k) <> [] ->
+  K.k_flushed k = false /\
+  exists k', K.kstep (K.cfix declared max_atts split tr) K.KFlush k = Some k' /\
+    C.c_parked (K.k_c k') = [] /\ C.c_sendbuf (K.k_c k') = [] /\
+    Sio.Pipeline.st_log (C.c_base (K.k_c k')) = Sio.Pipeline.st_log (C.c_base (K.k_c k)) ++ C.c_parked (K.k_c k).
+Proof. exact (@KP.park_flush_pending). Qed.
+
+(** Once the flush has run nothing is parked, ever: no packet is stranded behind it ... *)
+Theorem C19_park_none_stranded :
+  forall (data : Type) declared max_atts split tr (progs : list (list (Sio.Pipeline.spacket data))) k,
+  K.kreachable (K.cfix declared max_atts split tr) progs k -> K.k_flushed k = true ->
+  C.c_parked (K.k_c k) = [] /\ C.c_sendbuf (K.k_c k) = [].
+Proof. exact (@KP.park_none_stranded). Qed.
+
+(** ... and every emit after it goes straight to the packet queue. *)
+Theorem C19_park_emit_after_flush_is_sent :
+  forall (data : Type) declared max_atts split tr (progs : list (list (Sio.Pipeline.spacket data))) k i k',
+  K.kreachable (K.cfix declared max_atts split tr) progs k -> K.k_flushed k = true ->
+  K.kstep (K.cfix declared max_atts split tr) (K.KAct (C.CEmit i)) k = Some k' ->
+  exists p, Sio.Pipeline.st_log (C.c_base (K.k_c k')) = Sio.Pipeline.st_log (C.c_base (K.k_c k)) ++ [(i, p)]
+            /\ C.c_parked (K.k_c k') = [].
+Proof. exact (@KP.park_emit_after_flush_is_sent). Qed.
+
+(** The variant whose decision uses a state sampled BEFORE sendBufferMu is taken violates the
+    property: the emit samples "not connected", the CONNECT reply and its flush run, the emit then
+    parks packet 1 - connected, flush over, packet parked; no flush is enabled any more and the next
+    emit parks behind it instead of being sent.  (Replayed on the real socket by the park suite:
+    E0; C; F; R0.) *)
+Theorem C19_park_stale_read_refuted :
+  exists k, exec_opt KP.kstale KP.stale_schedule (K.kinit KP.stale_progs) = Some k /\
+    C.c_connected (K.k_c k) = true /\ K.k_flushed k = true /\ map snd (C.c_parked (K.k_c k)) = [KP.p1] /\
+    KP.kstale K.KFlush k = None /\
+    exists k', KP.kstale (K.KAct (C.CEmit 0)) k = Some k' /\ map snd (C.c_parked (K.k_c k')) = [KP.p1; KP.p2] /\
+               Sio.Pipeline.st_log (C.c_base (K.k_c k')) = [].
+Proof. exact KP.stale_read_strands_packet. Qed.
 
 (** * The original pollQueue (unbuffered ready, no re-check) violates the property *)
 
